@@ -8,6 +8,7 @@ import CnfgenModel.Fam.MapCons
 import Lemmas.Linear
 namespace Cnfgen
 namespace Fam
+namespace G2
 open Vars
 
 /-! ### iteration -/
@@ -367,5 +368,6 @@ theorem forceNondecreasing_in {st : Nat} (k N : Nat) (hst : 1 ≤ st) :
     exact clause_neg2_in hst hi (by omega) hj1 hj2 (by omega) hi' hj1' hj2'
   · simp at hc
 
+end G2
 end Fam
 end Cnfgen
